@@ -34,7 +34,7 @@ CHECKS = {
     "C08": dict(level="model_checking", tech="symbolic execution + z3: 3+N real runs per path (generator, callback, list, every prefix) with a counting source",
                 text="Hand-over moment, single end-of-stream request, delivery-mode equality and prefix consistency decided per path for streams of <=5 (quick) / 8 (thorough) frames with unbounded parameters; split() laziness on the byte-level harness.",
                 ref="§5 C08"),
-    "C09": dict(level="model_checking", tech="symbolic differential: real split() through every container kind / alias spelling on the same symbolic bytes inside one path, z3 decides region-list equality",
+    "C09": dict(level="model_checking", tech="symbolic differential: real split() through every container kind / alias spelling (either keyword order) on the same symbolic bytes inside one path, z3 decides region-list equality",
                 text="12 container kinds, 12 alias spellings (incl. explicit None and zero values) and max_read (quarter-sample resolution, through bytes, regions, sources, lazy wav) compared with the run on raw bytes for inputs of <=3 (quick) / 4 (thorough) windows with unbounded sample count, window size and counts.",
                 ref="§5 C09"),
     "C10": dict(level="model_checking", tech="symbolic execution over an uninterpreted byte sequence (segment lists, LIA lengths), z3 decides block identity and existence",
@@ -44,7 +44,7 @@ CHECKS = {
                 text="Buffer source from an arbitrary position through every sequence of K operations (2 quick / 3 thorough) with unbounded arguments; raw/wav/stdin sources through every sequence of 4/5 operations (read, read(None), close/open, redundant open; stdin may deliver short chunks through read1 and goes on after close/open); bit-exact int(rate*ms/1000) lemma by cvc5 for |rate*ms| <= 2^24 (quick) / 2^49 (thorough).",
                 ref="§5 C11"),
     "C12": dict(level="model_checking", tech="symbolic schedules: real worker threads under a baton scheduler, every scheduling decision and time-out forked through the engine within a pre-emption bound; z3 decides input-path feasibility",
-                text="TokenizerWorker + 1-3 recording observers (also a real PrintWorker) on 2-4 (quick) / up to 7 (thorough) windows with symbolic activity; <=2 (3) pre-emptive switches, <=1 (2) spurious time-outs per worker; also partial last windows, a main thread that returns without joining, workers started by hand, invalid parameters, and concrete entirely active streams of 70-260 (600) windows: observers' logs == detections == split(); all threads end; no deadlock.",
+                text="TokenizerWorker + 1-3 recording observers (also a real PrintWorker) on 2-4 (quick) / up to 7 (thorough) windows with symbolic activity; <=2 (3) pre-emptive switches, <=1 (2) spurious time-outs per worker; also partial last windows, a main thread that returns without joining, workers started by hand, invalid parameters, concrete entirely active streams of 70-260 (600) windows, and energy detection configured through the worker's own keywords (eth / energy_threshold): observers' logs == detections == split(); all threads end; no deadlock.",
                 ref="§5 C12-C14", note="Trusted: the cooperative scheduler as a model of CPython threads switching at queue operations and joins; exhaustive forking (not a closed-form argument) along the schedule dimension."),
     "C13": dict(level="model_checking", tech="symbolic schedules as C12 with the real StreamSaverWorker (symbolic cache threshold), AudioEventsJoinerWorker, RegionSaverWorker over wave stubs",
                 text="Saved stream == blocks read (header, closed file), joined file == split_and_join_with_silence(), one correctly named file per detection, under every schedule within the bounds; a concrete 70 000-frame stream saved, joined and exported as raw / wav (with stale temp files present); the saver alone on fully symbolic audio content.",
@@ -68,7 +68,7 @@ CHECKS = {
                 text="Every history of 5 (quick) / 7 (thorough) operations out of read/rewind/.data, each followed by an audit (rewind, data, read, read), on a recording reader with unbounded n, block, hop, max_read, mono and multichannel; recordings of 1100 (5000) blocks; non-recording readers keep data/rewind hidden.",
                 ref="§5 C19"),
     "C20": dict(level="model_checking", tech="symbolic execution + z3: stale-state over-approximation and real two-run histories vs a fresh object",
-                text="Tokenizer with every per-run field arbitrary vs fresh (over-approximation of any history) and real two-run histories (complete, partially consumed, closed, both generators requested first, closed while the later run is in progress); other objects (bytes, regions, readers, rewound recorders with an abandoned pass in between, buffer sources, validators, array windows) by differential runs in one path.",
+                text="Tokenizer with every per-run field arbitrary vs fresh (over-approximation of any history) and real two-run histories (complete, partially consumed, closed, both generators requested first, closed while the later run is in progress); other objects (bytes, regions, readers, rewound recorders with an abandoned pass in between, buffer sources, validators, array windows, two live split() generators with the default validator) by differential runs in one path.",
                 ref="§5 C20"),
 }
 
